@@ -829,7 +829,7 @@ func vfC51Run(t *testing.T, p vfC51Plan) (res vk.Result) {
 	}
 	if !converged {
 		// not a verdict by itself (real-time wait), but reported for the floor
-		return vk.Result{Discard: true, Classes: []string{"inconclusive:no_convergence have=" + vfC51Keys(lastChildren) + " want=" + vfC51Keys(want)}}
+		return inconclusive("no_convergence have=" + vfC51Keys(lastChildren) + " want=" + vfC51Keys(want))
 	}
 	// white-box, read-only, inside the serializer: refcounts after everything is committed
 	type snap struct {
